@@ -128,7 +128,7 @@ def run(chk, facts_by_config):
                 g = m.fn(i)
                 if i == f['id'] or g['crate'] not in REPO_CRATES:
                     continue
-                nm = g.get('name')
+                nm = g.get('name') or '{closure}'
                 names.add(nm)
                 if g['crate'] != 'blowfish':
                     bad.append('%s (crate %s)' % (nm, g['crate']))
